@@ -199,6 +199,7 @@ def h_tee(L: int, o0: int, o1: int, o2: int, o3: int, o4: int, o5: int, o6: int,
     pos = [0, 0]
     live = [True, True]
     closed_unadvanced = False
+    lastfetch = [None, None]  # index of the item each child fetched itself last (kept in its frame)
     ok = True
     trace = []
     for i, o in enumerate((o0, o1, o2, o3, o4, o5, o6, o7)):
@@ -206,25 +207,38 @@ def h_tee(L: int, o0: int, o1: int, o2: int, o3: int, o4: int, o5: int, o6: int,
         if i == closeat and live[1]:
             D.aclose(kids[1])
             live[1] = False
+            lastfetch[1] = None
             closed_unadvanced = pos[1] == 0
             trace.append("close1")
         if not live[c]:
             c = 0
+        fetched_before = len(s.refs)
         got, end = D.take(kids[c], 1)
+        if len(s.refs) > fetched_before:
+            lastfetch[c] = len(s.refs) - 1
+        if end == "stop":
+            lastfetch[c] = None  # the child's generator has finished: its frame is gone
         pos[c] += len(got)
         del got
         trace.append(c)
         a = alive(s.refs)
-        # items fetched from the source but not yet yielded by the slowest live child
-        lead = len(s.refs) - min(pos[c] for c in (0, 1) if live[c])
-        if a > lead + 2:
+        # exactly the items not yet yielded by the slowest live child, plus the one item each
+        # child that fetched from the source still holds in its frame
+        keep = set(range(min(pos[k] for k in (0, 1) if live[k]), len(s.refs)))
+        for k in (0, 1):
+            if lastfetch[k] is not None:
+                keep.add(lastfetch[k])
+        if s.refs and len(s.refs) <= s.L:
+            keep.add(len(s.refs) - 1)  # the source generator itself still holds the item it produced last
+        lead = len(keep)
+        if a > lead:
             if closed_unadvanced:
                 ok = fail("tee:keeps-buffering-for-a-child-closed-before-it-was-ever-advanced", (a, lead, trace)) and ok
             else:
-                ok = fail("tee:retains-more-than-lead-plus-2-items", (a, lead, trace)) and ok
+                ok = fail("tee:retains-items-the-slowest-live-child-has-already-yielded", (a, lead, trace)) and ok
             break
     D.run(t.aclose())
-    return finish(ok, max(pos) >= 3, ("tee", L, tuple(trace)))
+    return finish(ok, max(pos) >= 3 or closed_unadvanced, ("tee", L, tuple(trace)))
 
 
 GRID = {
